@@ -578,3 +578,35 @@ def sorted_at(body, local, site_bb, getters=None):
         if not body.mutations_in(region, local, site_bb):
             return True
     return False
+
+
+def natural_loops(body):
+    """[(header, set(blocks))] from back edges (a -> h with h dominating a); loops sharing a header are merged"""
+    loops = {}
+    for a, outs in body.succ().items():
+        for h in outs:
+            if body.dominates(h, a):
+                blocks = {h, a}
+                st = [a]
+                pred = body.pred()
+                while st:
+                    n = st.pop()
+                    if n == h:
+                        continue
+                    for p in pred.get(n, []):
+                        if p not in blocks:
+                            blocks.add(p)
+                            st.append(p)
+                loops.setdefault(h, set()).update(blocks)
+    return sorted(loops.items())
+
+
+def loop_exit_atoms(body, header, blocks, getters=None):
+    """[(edge, [normalised atoms on that edge])] for every edge leaving the loop (panic exits ignored)"""
+    out = []
+    pan = body.panic_blocks()
+    for b in sorted(blocks):
+        for s in body.succ().get(b, []):
+            if s not in blocks and s not in pan:
+                out.append(((b, s), [atom_norm(a, getters) for a in body.edge_atoms((b, s))]))
+    return out
